@@ -76,6 +76,8 @@ func runC15(c *core.Ctx) {
 	c.Rule("R3", "operations started after the close report it: the closed edge of the entry points returns the documented sentinel (ErrQueueIsClosed / ErrWorkerPoolIsClosed / 0) or drops the work", 7)
 	c.Assume = append(c.Assume, "channels are closed only through close() on the field (no reflection)", "a caller-supplied channel (NewByCh/NewByOptions) is not closed or used by the caller")
 	li := core.ComputeLocks(p)
+	c.Rule("R4", "every lock taken by the closers/senders' types (Cor, BufferedChannelQueue, WorkerPool) is released in the same mode on every return path", 8)
+	lockBalance(c, li, "R4", append(append(funcsOfType(p, p.Fpgo, "CorDef"), funcsOfType(p, p.Fpgo, "BufferedChannelQueue")...), funcsOfType(p, p.Worker, "DefaultWorkerPool")...))
 	ops := core.ChanOps(p)
 	chans := map[string]*c15chan{}
 	for _, o := range ops {
@@ -118,6 +120,10 @@ func runC15(c *core.Ctx) {
 				}
 			}
 			flag := closedFlagSetBefore(p, cl)
+			// independent of the lock: the closed flag must be raised before the channel is closed, otherwise not
+			// even operations started after Close returned can notice (kept separate so that a recorded
+			// finding about the missing lock cannot hide it)
+			c.Check(flag != "", "R1", fmt.Sprintf("%s/flag@%s", ch.field, core.FuncName(cl.Fn)), p.InstrPos(cl.Instr), "closed flag "+flag+" set before the close", "no store of true to a closed flag of "+cl.Base+" dominates the close of "+ch.field+": operations started after Close returned still find the object open and send on the closed channel")
 			switch {
 			case suf == "":
 				ch.lockless = true
@@ -144,6 +150,23 @@ func runC15(c *core.Ctx) {
 			key := fmt.Sprintf("%s/send@%s", ch.field, core.FuncName(s.Fn))
 			if s.Via != "" {
 				key += "/" + strings.TrimPrefix(s.Via, "fpgo.")
+			}
+			if ch.lockSuf == "" && ch.flag != "" {
+				// no lock to order the send against the close (recorded finding); the weaker guarantee - a send is
+				// at least preceded by a test of the closed flag on the not-closed edge - is still demanded
+				tested := false
+				for _, cond := range core.EdgeFacts(s.Instr.Block()) {
+					n := core.Normalize(cond)
+					if !n.True && flagRead(p, n.V, s.Base, ch.flag, 0) {
+						tested = true
+					}
+				}
+				if !tested {
+					if ok, _ := c15testedAtSites(p, s.Fn, s.Base, ch.flag, 0); ok {
+						tested = true
+					}
+				}
+				c.Check(tested, "R2", key+"/flag-test", p.InstrPos(s.Instr), "send preceded by a test of "+s.Base+"."+ch.flag+" on the not-closed edge", "send on "+ch.field+" is not even preceded by a test of the closed flag: every operation after Close sends on the closed channel and panics")
 			}
 			if ch.lockSuf == "" || ch.flag == "" {
 				c.Fail("R2", key, p.InstrPos(s.Instr), fmt.Sprintf("send on %s: the channel's closer holds no lock / sets no flag, so no critical section can order this send against the close (check-then-send race → 'send on closed channel')", ch.field))
@@ -473,4 +496,43 @@ func c15closedResult(p *core.Prog, f *ssa.Function, flag, sentinel string, depth
 		detail = "closed edge does not return the documented result (" + sentinel + ")"
 	}
 	return false, detail
+}
+
+// c15testedAtSites: every call site of fn (a helper doing the send) is on the not-closed edge of a test of the flag.
+func c15testedAtSites(p *core.Prog, fn *ssa.Function, base, flag string, depth int) (bool, string) {
+	if depth > 2 {
+		return false, ""
+	}
+	sites, complete := core.CallSites(p, fn)
+	if !complete || len(sites) == 0 {
+		return false, ""
+	}
+	for _, s := range sites {
+		if s.Kind != "call" {
+			return false, ""
+		}
+		nb := base
+		if fn.Parent() == nil {
+			call := s.Instr.(ssa.CallInstruction).Common()
+			nb = ""
+			for i, prm := range fn.Params {
+				if prm.Name() == base && i < len(call.Args) {
+					nb = core.Path(call.Args[i])
+				}
+			}
+		}
+		ok := false
+		for _, cond := range core.EdgeFacts(s.Instr.Block()) {
+			n := core.Normalize(cond)
+			if !n.True && flagRead(p, n.V, nb, flag, 0) {
+				ok = true
+			}
+		}
+		if !ok {
+			if ok2, _ := c15testedAtSites(p, s.Caller, nb, flag, depth+1); !ok2 {
+				return false, ""
+			}
+		}
+	}
+	return true, ""
 }
